@@ -19,7 +19,7 @@ the index choices and the -kT ln u thresholds are passed in as arrays.
                           occupied_set) pairs x thresholds {0, |dE|/2, 2|dE|, inf}: one batch call == the same moves
                           one at a time == Metropolis rule (accept iff dE < threshold) applied to the reference sampler.
                L = 3 for supercells with <= 4 mobile sites (all start states); for 8 sites: L = 1 from every state,
-               L = 2 from states with counting index = 0 mod 17, L = 3 from the states with counting index 37 and 90.
+               L = 2 from states with counting index = 0 mod 17, L = 3 from the states with counting index 90 (quick) / 37 and 90 (thorough).
  After every operation: occ, E, clustercount, Nocc/Nunocc, occupied/unoccupied sets (as sets), index consistency
  (occupied_set[index[i]] == i ...) equal the reference; batch vs one-at-a-time compiled objects: all arrays identical.
 
@@ -57,13 +57,13 @@ def _configs(tier):
             ('HCP221', 2, 3, None, True), ('CHAIN8', 2, 3, None, True), ('CHAIN8', 2, 3, 3, True)]
 
 
-L3_STATES_8 = [37, 90]     # counting indices of the 8-site start states explored to MCmoves length 3
+def _l3(tier): return [90] if tier == 'quick' else [37, 90]    # counting indices of the 8-site start states explored to MCmoves length 3
 
 
 def BOUNDS(tier):
     return {'configs(supercell,cutoff interval,order,vacancy,jump network)': _configs(tier), 'spectator occupations': 'all',
             'start states': 'all occupations', 'thresholds': ['0', '|dE|/2', '2|dE|', 'inf', '(|dE| < 1e-9: 1, inf)'],
-            'MCmoves length': '3 (<= 5 mobile sites); 8 sites: 1 all states, 2 states = 0 mod 17, 3 from states with counting index ' + str(L3_STATES_8)}
+            'MCmoves length': '3 (<= 5 mobile sites); 8 sites: 1 all states, 2 states = 0 mod 17, 3 from states with counting index ' + str(_l3(tier))}
 
 
 def cases(tier):
@@ -79,7 +79,8 @@ def cases(tier):
                 out.append({'key': 'lock:{}:cut{}o{}:vac{}:{}:s{}:chunk{}of{}'.format(name, icut, order, '-' if vac is None else vac, 'jn' if jn else 'nojn',
                                                                                   ''.join(map(str, sb)) or '-', ch, nchunk),
                             'kind': 'lock', 'sup': name, 'icut': icut, 'order': order, 'vac': vac, 'jn': jn, 'socc': list(sb),
-                            'chunk': ch, 'nchunk': nchunk, 'cost': nstates / nchunk * nm ** 2})
+                            'chunk': ch, 'nchunk': nchunk, 'l3': _l3(tier),
+                            'cost': nstates / nchunk * nm ** 2 * (100 if nm > 5 and any(x % nchunk == ch for x in _l3(tier)) else 1)})
     return out
 
 
@@ -278,7 +279,7 @@ def evaluate(case):
                 ref.update((j,), (i,))
         # MCmoves sequences
         if nm <= 5: L = 3
-        elif n in L3_STATES_8: L = 3
+        elif n in case.get('l3', ()): L = 3
         elif n % 17 == 0: L = 2
         else: L = 1
         root = jit.copy()
@@ -316,6 +317,8 @@ def evaluate(case):
         dfs(root, 0, [], [], [])
         # the reference must be back in the start state (sanity of the explorer's own backtracking)
         if not np.array_equal(np.asarray(ref.occ), start): raise RuntimeError('explorer: backtracking did not restore the start state')
+        # copies were moved, the object they were copied from must not have
+        check(root, start, 'copy-independence', False)
     return {'states': sum(1 for n in range(len(allocc)) if n % case['nchunk'] == case['chunk']), 'transitions': stats['ops'], 'execs': stats['ops'],
             'outcomes': [str(o) for o in outcomes], 'nontrivial': stats['nontriv'], 'violations': viols,
             'sample': {'case': case['key'], 'numpy.Inf aliased': _STATE['shim'], 'jumps': len(ref.jumps) if ref.jumps else 0}}
